@@ -60,7 +60,7 @@ Proof.
       rewrite Forall_forall in Hw. specialize (Hw x Hx).
       apply andb_true_iff; split.
       * destruct x, x0; cbn in Hhom |- *; try reflexivity; discriminate.
-      * destruct x as [m'|z]; [apply (Hw Hoa true) | cbn [wf_tag]; exact Hoa].
+      * destruct x as [m'|z]; [apply (Hw Hoa (is_nil (m_translate m'))) | cbn [wf_tag]; exact Hoa].
   - destruct e as [|e0 e']; [reflexivity|].
     cbn [forallb]. rewrite andb_true_r. unfold fwf. cbn [fst snd]. cbn [wf_tag].
     apply andb_true_iff; split; [reflexivity|].
@@ -70,7 +70,7 @@ Proof.
     + apply forallb_forall. intros y Hy. apply in_map_iff in Hy. destruct Hy as [x [<- Hx]].
       rewrite forallb_forall in Hoe. specialize (Hoe x Hx).
       rewrite Forall_forall in He. specialize (He x Hx).
-      apply andb_true_iff; split; [reflexivity | apply (He Hoe true)].
+      apply andb_true_iff; split; [reflexivity | apply (He Hoe (is_nil (m_translate x)))].
 Qed.
 
 Lemma wf_to_nbt m : msg_ok m = true -> wf_tag (to_nbt m) = true.
